@@ -522,19 +522,23 @@ func connectiveC11(c *Ctx) {
 
 // allSubsC11: every sub-expression contributes, or the whole expansion fails.
 func allSubsC11(c *Ctx) {
-	p := c.P
 	c.Rule("C11.allsubs", "in matchRegex no loop over the sub-expressions of a node (re.Sub) is left by `break`: a loop that stops early and then succeeds has dropped the remaining alternatives or factors, so the literal set is too small; the only early exits are failing returns")
-	fn := p.Func("matchRegex")
+	loopNoBreak(c, "C11.allsubs", c.P.Func("matchRegex"), "matchRegex", "Sub", "the loop is left by break and the function goes on to succeed: sub-expressions after that point contribute nothing (at exactly the literal cap the remaining alternatives are dropped)")
+}
+
+// loopNoBreak: no loop of fn over a `.sel` collection is left by break.
+func loopNoBreak(c *Ctx, rule string, fn *types.Func, fname, selName, badText string) {
+	p := c.P
 	fd := p.FuncDecls[fn]
 	if fd == nil || fd.Body == nil {
-		c.Unk("C11.allsubs", "matchRegex", 0, "anchor not found")
+		c.Unk(rule, fname, 0, "anchor not found")
 		return
 	}
 	n := 0
 	isSubLoop := func(x ast.Expr) bool {
 		found := false
 		ast.Inspect(x, func(m ast.Node) bool {
-			if sel, ok := m.(*ast.SelectorExpr); ok && sel.Sel.Name == "Sub" {
+			if sel, ok := m.(*ast.SelectorExpr); ok && sel.Sel.Name == selName {
 				found = true
 			}
 			return true
@@ -544,7 +548,7 @@ func allSubsC11(c *Ctx) {
 	var checkLoop func(body *ast.BlockStmt, label string, what string, pos token.Pos)
 	checkLoop = func(body *ast.BlockStmt, label, what string, pos token.Pos) {
 		n++
-		key := fmt.Sprintf("matchRegex: loop #%d over %s", n, what)
+		key := fmt.Sprintf("%s: loop #%d over %s", fname, n, what)
 		bad := token.NoPos
 		var walk func(nd ast.Node, inner bool)
 		walk = func(nd ast.Node, inner bool) {
@@ -586,9 +590,9 @@ func allSubsC11(c *Ctx) {
 		}
 		walk(body, false)
 		if bad != token.NoPos {
-			c.Bad("C11.allsubs", key, bad, "the loop is left by break and the function goes on to succeed: sub-expressions after that point contribute nothing (at exactly the literal cap the remaining alternatives are dropped)")
+			c.Bad(rule, key, bad, badText)
 		} else {
-			c.OK("C11.allsubs", key, pos, "no break")
+			c.OK(rule, key, pos, "no break")
 		}
 	}
 	ast.Inspect(fd.Body, func(nd ast.Node) bool {
@@ -609,7 +613,7 @@ func allSubsC11(c *Ctx) {
 		}
 		return true
 	})
-	c.Floor("C11.allsubs", n, 2)
+	c.Floor(rule, n, 1)
 }
 
 // emptyClassC11: a character class with no members matches nothing; it must
